@@ -57,13 +57,14 @@ def run(tier):
         out = tc.run_both(cases, impl, model)
         if out["impl"][0] == 0 and out["model"][0] == 0:
             handle("file", cases, impl, model, False)
-            h = res.notes.get("output_classes_file", {})
-            # non-trivial: a corruption that the DER layer did not reject (the index / phrase data was reached)
-            res.coverage["distinct_nontrivial"] += h.get("O OK", 0)
-            res.coverage["exhaustive"] = ("every single-byte overwrite x {00,01,7f,80,ff,+1,-1}, every truncation and 6 extensions of the "
-                                          "8 small corpus files; larger files and structured index attacks are sampled")
-            with open(impl, encoding="utf-8") as fh:
-                res.coverage["samples"] += [{"view_line": l.strip()[:300]} for l in list(fh)[40:44]]
+            # non-trivial: a corruption that the DER layer and the index validation did not reject (the
+            # lookups / entries ran on corrupted contents); distinct by (base file, mutation)
+            nd, samples = tc.distinct_accepted(cases, impl)
+            res.coverage["distinct_nontrivial"] += nd
+            res.coverage["exhaustive"] = False
+            res.coverage["exhaustive_part"] = ("every single-byte overwrite x {00,01,7f,80,ff,+1,-1}, every truncation and 6 extensions "
+                                               "of the 8 small corpus files; larger files, structured index attacks and random byte strings are sampled")
+            res.coverage["samples"] += samples
         else:
             st["broken"].append({"obligation": "correspondence-run", "detail": (out["impl"][1] + out["model"][1])[-3000:]})
     if st["cargo"] and st["extract"] and os.path.exists(ccases):
